@@ -233,7 +233,7 @@ fn case_strategy() -> impl Strategy<Value = Case> {
 pub fn def() -> PropDef {
     PropDef {
         id: "C04",
-        rule: "NodeId / ExpandedNodeId / Guid / NumericRange / DateTime values from a structured generator printed and parsed back; plus strings assembled from format tokens and mutated printed forms into every from_str; non-trivial = identifier is not a namespace-0 numeric id, or the string holds a format metacharacter or multi-byte character, or a parser accepted the input; distinct = distinct generator bytes / token sequence",
+        rule: "NodeId / ExpandedNodeId / Guid / NumericRange / DateTime values from a structured generator printed and parsed back; plus strings assembled from format tokens and mutated printed forms into every from_str; non-trivial = identifier is not a namespace-0 numeric id, or the string holds a format metacharacter or multi-byte character, or a parser accepted the input; distinct = distinct generator bytes / token sequence; thorough adds a libFuzzer campaign (target c04_ids: strings that parse must print to a string that parses to the same id)",
         assumptions: &[
             "string and byte-string identifiers are non-empty (property text)",
             "an ExpandedNodeId with a namespace URI is compared modulo the namespace index (the Part 6 text form carries either ns= or nsu=)",
@@ -246,6 +246,9 @@ pub fn def() -> PropDef {
                 part("parser_total", tier.pick(40_000, 1_000_000), proptest::collection::vec(any::<u8>(), 0..12), parser_total),
                 part("parser_mutated", tier.pick(30_000, 800_000), (case_strategy(), any::<u16>(), any::<u8>()), parser_mutated),
             ]
+            .into_iter()
+            .chain(if tier == Tier::Thorough { Some(part_fuzz("libfuzzer_c04_ids", "c04_ids", 6_000_000, 512)) } else { None })
+            .collect()
         },
     }
 }
